@@ -48,10 +48,20 @@ inductive Outcome where
   | connErr | chanClosed | writeErr | timedOut | cancelled | dupId | idMismatch
 deriving DecidableEq, Repr
 
+/-- Why a call gives up before a value arrived. -/
+inductive Abandon where
+  | writeErr | timedOut | cancelled
+deriving DecidableEq, Repr
+
+def Abandon.outcome : Abandon → Outcome
+  | .writeErr => .writeErr
+  | .timedOut => .timedOut
+  | .cancelled => .cancelled
+
 inductive PC where
   | idle
   | active
-  | abandoning (o : Outcome)     -- decided to give up; `cleanup` (entry removal) still to run
+  | abandoning (a : Abandon)     -- decided to give up; `cleanup` (entry removal) still to run
   | returned (o : Outcome)
 deriving DecidableEq, Repr
 
@@ -121,11 +131,10 @@ def push (s : State) (c : Nat) (m : Msg) : State :=
   setCall s c { s.calls c with chan := (s.calls c).chan ++ [m] }
 
 /-- Does abandoning with outcome `o` remove the pending entry? -/
-def removes (cfg : Cfg) : Outcome → Bool
+def removes (cfg : Cfg) : Abandon → Bool
   | .timedOut => cfg.timeoutRemoves
   | .cancelled => cfg.cancelRemoves
   | .writeErr => cfg.writeErrRemoves
-  | _ => false
 
 def outcomeOf (k : Call) : Msg → Outcome
   | .resp f => if f.id = k.id then .resp f else .idMismatch      -- `validate_response`
@@ -182,7 +191,7 @@ def step (cfg : Cfg) (s : State) : Ev → State
     match k.pc with
     | .abandoning o =>
       let p := if removes cfg o && k.reg then erase s.pending k.id else s.pending
-      setCall { s with pending := p } c { k with pc := .returned o }
+      setCall { s with pending := p } c { k with pc := .returned o.outcome }
     | _ => s
   | .rmatch f =>
     match s.reader with
